@@ -23,6 +23,18 @@ Functions under contract (real text of /repo/src/read/op.rs, extracted on every 
       max(old, m) + 1 and a run that returns Ok never went past m -- one loop iteration = one evaluate_one_operation plus at
       most one extra Operation::parse (visible in the text: the loop body has exactly these two decode sites).
 
+  PIECES AND NESTED CALLS (DWARF 5 2.5.1.5 / 2.6.1.2; added after seeded mutant C07-b `if self.pc.is_empty()` in the Complete arm was missed):
+      [C07:end-of-expression-all-callers]  end_of_expression() <==> whole_done(old): the whole expression is finished iff the current
+          expression AND every saved caller frame are exhausted (an exhausted callee alone is not the end);
+      [C07:complete-needs-no-callers]      a completed location becomes the unsized whole-object piece only if whole_done held right after the
+          step, and the sized-piece path (decode the following DW_OP_piece) is taken only if it did not;
+      [C07:invalid-piece-only-at-end]      Err(InvalidPiece) is only returned when whole_done held right after the step (no spurious rejection of
+          "callee ends in a location, caller continues with DW_OP_piece");
+      [C07:whole-object-piece-final]       a piece with size_in_bits None is the ONLY piece, with pc empty and call stack empty: mid-point assertion at
+          the push, loop invariants (ghost flag `whole`; `sized_only(old) ==> pieces_ok`), "no operation runs after a whole-object piece",
+          and a postcondition of evaluate_internal / evaluate / resume_with_* over the suspend-resume history (sp_sized_only / sp_pieces_ok);
+      [C07:step-pieces-sized]              evaluate_one_operation appends at most one piece, only with result Piece, and that piece is sized.
+
 Finding F-op-eval-1 (found by this batch, fixed in /repo commit 58e76a9; native reproducer native/src/bin/f_op_eval_1.rs):
   `self.iteration += 1` in evaluate_internal overflowed the u32 counter after 2^32 operations of a looping expression when no
   limit (or the limit u32::MAX) was set -> panic in an overflow-checked build.  The statement is now
@@ -433,7 +445,7 @@ def populate(ctx, sk):
     ex.clean()
     ex.own(OWN)
     ex.splice('evaluation', ret='res', requires=['[C07:valid-encoding] valid_address_size(encoding.address_size)'],
-              ensures=['[C10:view][C07:new-state] res.sp_pc() == self.0.rv() && res.sp_bytecode() == self.0.rv() && res.sp_phase() == Phase::Start(None) && res.sp_wf() && res.sp_max_iterations() is None'])
+              ensures=['[C10:view][C07:new-state] res.sp_pc() == self.0.rv() && res.sp_bytecode() == self.0.rv() && res.sp_phase() == Phase::Start(None) && res.sp_wf() && res.sp_max_iterations() is None', 'res.sp_sized_only()'])
     ex.splice('operations', ret='res', ensures=['[C10:view][C07:iter-start] res.inp() == self.0.rv() && res.enc() == encoding'])
     sk.add('read::op', ex)
     oi = opsrc.item(r'^impl<R: Reader> OperationIter<R> \{', label='OperationIter').clean()
@@ -497,12 +509,14 @@ def populate(ctx, sk):
     pub closed spec fn sp_only_state_changed(&self, o: &Self) -> bool { only_state_changed(*o, *self) }
     pub closed spec fn sp_same_phase(&self, o: &Self) -> bool { self.state == o.state }
     pub closed spec fn sp_config_same(&self, o: &Self) -> bool { config_same(*self, *o) }
-    pub closed spec fn sp_stack_cap(&self) -> nat { stack_cap(*self) }""")
+    pub closed spec fn sp_stack_cap(&self) -> nat { stack_cap(*self) }
+    pub closed spec fn sp_sized_only(&self) -> bool { sized_only(*self) }
+    pub closed spec fn sp_pieces_ok(&self) -> bool { pieces_ok(*self) }""")
     ev.splice('new_in', ret='res', requires=['[C07:valid-encoding] valid_address_size(encoding.address_size)'], ensures=[
         '[C07:new-state] res.sp_phase() == Phase::Start(None) && res.sp_stack().len() == 0 && res.sp_result().len() == 0 && res.sp_calls().len() == 0 && res.sp_value_result() is None',
         '[C07:new-no-limit] res.sp_iteration() == 0 && res.sp_max_iterations() is None && res.sp_object_address() is None',
         '[C07:addr-mask] res.sp_addr_mask() == ones(encoding.address_size) && res.sp_encoding() == encoding',
-        '[C10:view] res.sp_pc() == bytecode.rv() && res.sp_bytecode() == bytecode.rv()', 'res.sp_wf()'],
+        '[C10:view] res.sp_pc() == bytecode.rv() && res.sp_bytecode() == bytecode.rv()', 'res.sp_wf()', 'res.sp_sized_only()'],
         before=[('Evaluation {', 'proof { assert((1u64 << 8u64) - 1 == 0xffu64) by (bit_vector); assert((1u64 << 16u64) - 1 == 0xffffu64) by (bit_vector); assert((1u64 << 32u64) - 1 == 0xffff_ffffu64) by (bit_vector); assert(!0u64 == 0xffff_ffff_ffff_ffffu64) by (bit_vector); }')],
         canary=True)
     ev.splice('set_initial_value', requires=['[C07:set-initial-value-protocol] old(self).sp_phase() == Phase::Start(None)'],
@@ -541,6 +555,10 @@ def populate(ctx, sk):
         '[C01:iteration-limit][C07:iteration-limit] budget_bound(old(self).sp_iteration(), old(self).sp_max_iterations(), final(self).sp_iteration())',
         '[C01:iteration-limit][C07:iteration-limit] res is Ok ==> (old(self).sp_max_iterations() matches Some(m) ==> final(self).sp_iteration() <= m || final(self).sp_iteration() == old(self).sp_iteration())',
         '[C01:iteration-monotone] final(self).sp_iteration() >= old(self).sp_iteration()',
+        # DWARF 5 2.6.1.2 across the whole suspend / resume history (a fresh Evaluation has no pieces, hence sp_sized_only): while the
+        # machine is suspended all collected pieces are sized; on completion the result is sized pieces only, or exactly ONE whole-object
+        # piece with pc empty and call stack empty (sp_pieces_ok = specs: pieces_ok)
+        '[C07:whole-object-piece-final] old(self).sp_sized_only() ==> (res matches Ok(r) ==> (if r is Complete { final(self).sp_pieces_ok() } else { final(self).sp_sized_only() }))',
     ]
     PUSH_NONE = ('                                size_in_bits: None,\n                                bit_offset: None,\n                                location,\n                            })\n'
                  '                            .map_err(|_verif_unused| -> (e: Error) ensures e == Error::StackFull { Error::StackFull })?;')
@@ -637,7 +655,7 @@ def populate(ctx, sk):
     evn.own(OWN)
     evn.splice('new', ret='res', requires=['[C07:valid-encoding] valid_address_size(encoding.address_size)'],
                ensures=['[C10:view][C07:new-state] res.sp_pc() == bytecode.rv() && res.sp_bytecode() == bytecode.rv() && res.sp_phase() == Phase::Start(None) && res.sp_stack().len() == 0 && res.sp_wf() '
-                        '&& res.sp_max_iterations() is None && res.sp_iteration() == 0 && res.sp_addr_mask() == ones(encoding.address_size)'])
+                        '&& res.sp_max_iterations() is None && res.sp_iteration() == 0 && res.sp_addr_mask() == ones(encoding.address_size)', 'res.sp_sized_only()'])
     sk.add('read::op', evn)
     sk.add('read::op', core.rd('specs/op_eval.rs'), label='op-eval-spec')
     sk.add('read::op', '// ---- generated from the table STEP (vx/batches/op_eval.py)\n' + step_fns, label='op-eval-step-spec')
